@@ -272,3 +272,130 @@ def defaults_table(ctx, prog, rule):
                 else:
                     n = -99
     ctx.ob(rule, "defaults/range-order-checked", n >= 2, "maximum < minimum is rejected for Integer and ScaledInteger (%d checks)" % n)
+
+
+def _byte_positions(t, depth=0):
+    """(root tree, lo, hi) of the positions a byte value can come from: a constant index, or an element yielded by an
+    iteration over a view (iter / skip(n) / take(n) / constant slicing); hi None = to the end of the root"""
+    from bytesview import byteview
+    if depth > 10:
+        return None
+    x = t
+    while x[0] in ("cast",):
+        x = x[2]
+    if x[0] in ("ref", "partial"):
+        return _byte_positions(x[1], depth + 1)
+    if x[0] == "index":
+        bv = byteview(x[1])
+        i = const_val(x[2])
+        if bv is None or i is None:
+            return None
+        return (bv[0], bv[1] + i, bv[1] + i)
+    if x[0] == "ok":
+        c = x[1]
+        while c[0] == "cast":
+            c = c[2]
+        if c[0] == "call" and c[1].rsplit("::", 1)[-1] == "next" and c[2]:
+            return _iter_positions(c[2][0], depth + 1)
+        return None
+    s_ = strip(x)
+    if s_ is not x and s_ != x:
+        return _byte_positions(s_, depth + 1)
+    return None
+
+
+def _iter_positions(t, depth=0):
+    from bytesview import byteview
+    if depth > 10:
+        return None
+    x = t
+    while x[0] in ("cast", "ref", "partial", "ok"):
+        x = x[2] if x[0] == "cast" else x[1]
+    if x[0] == "call" and x[2]:
+        last = x[1].rsplit("::", 1)[-1].split("<")[0]
+        if last in ("iter", "into_iter", "iter_mut", "copied", "cloned", "by_ref", "rev", "fuse", "peekable"):
+            r = _iter_positions(x[2][0], depth + 1)
+            return r
+        if last == "skip" and len(x[2]) == 2:
+            r, n = _iter_positions(x[2][0], depth + 1), const_val(x[2][1])
+            return None if r is None or n is None else (r[0], r[1] + n, r[2])
+        if last == "take" and len(x[2]) == 2:
+            r, n = _iter_positions(x[2][0], depth + 1), const_val(x[2][1])
+            return None if r is None or n is None else (r[0], r[1], r[1] + n - 1 if r[2] is None else min(r[2], r[1] + n - 1))
+    bv = byteview(x)
+    if bv is None:
+        return None
+    return (bv[0], bv[1], None if bv[2] is None else bv[2] - 1)
+
+
+def reserved_bytes(ctx, prog, rule):
+    """IndexPacketHeader::read may insist on zero only for the bytes the standard reserves (header byte 1 and bytes
+    7..15, i.e. buffer[0] and buffer[7..15] behind the id byte): a zero test that also covers the length, entry count or
+    index level rejects well-formed index packets"""
+    f = prog.fn("packet::IndexPacketHeader::read")
+    ctx.fn_seen(f)
+    R = Resolver(f, max_depth=24)
+    reserved = {0} | set(range(7, 15))
+    n, bad, unknown = 0, [], []
+    for bi in f.cfg():
+        te = int_test_edges(f, R, bi)
+        if te is None:
+            continue
+        val, cases, others = te
+        if set(cases) != {0}:
+            continue
+        # "must be zero": the non-zero side cannot reach a successful return
+        if not all(f.ok_reachable(start=[o]) is None for o in others):
+            continue
+        pos = _byte_positions(val)
+        if pos is None:
+            v = strip(val)
+            while v[0] == "cast":
+                v = strip(v[2])
+            if v[0] == "binop" or (v[0] == "call" and v[1].rsplit("::", 1)[-1] in ("any", "all")):
+                continue                     # a test of a computed quantity (alignment of the length) / handled below
+            unknown.append(tree_str(strip_deep(val))[:80])
+            continue
+        root, lo, hi = pos
+        hi = 14 if hi is None else hi
+        n += 1
+        outside = sorted(p for p in range(lo, hi + 1) if p not in reserved)
+        if outside:
+            bad.append("bytes %d..%d are required to be zero, %s of them are not reserved" % (lo, hi, outside))
+    # the same test as one `iter.any(|b| *b != 0)` / `!iter.all(|b| *b == 0)`
+    for bi in f.cfg():
+        t = f.blocks[bi]["term"]
+        if t["k"] != "switch" or op_place(t["discr"]) is None:
+            continue
+        d = strip(R.place(op_place(t["discr"])))
+        if not (d[0] == "call" and d[1].rsplit("::", 1)[-1] in ("any", "all") and len(d[2]) == 2):
+            continue
+        which = d[1].rsplit("::", 1)[-1]
+        e = switch_edges(f, bi)
+        tr, fa = e.get("1", e["otherwise"]), e.get("0")
+        err_side = tr if which == "any" else fa
+        if err_side is None or f.ok_reachable(start=[err_side]) is not None:
+            continue
+        cb = f.blocks[d[3]]["term"]
+        import inline
+        cd_ = inline._closure_def(f.blocks, cb["args"][1])
+        cl = prog.fns.get(cd_[1]) if cd_ else None
+        okcl = False
+        if cl is not None:
+            r_ = strip(Resolver(cl).local(0))
+            if r_[0] == "binop" and r_[1] == ("Ne" if which == "any" else "Eq"):
+                a_, b_ = strip(r_[2]), strip(r_[3])
+                okcl = (const_val(b_) == 0 and a_ in (("param", 2),)) or (const_val(a_) == 0 and b_ in (("param", 2),))
+        pos = _iter_positions(d[2][0]) if okcl else None
+        if pos is None:
+            unknown.append(tree_str(strip_deep(d))[:80])
+            continue
+        root, lo, hi = pos
+        hi = 14 if hi is None else hi
+        n += 1
+        outside = sorted(p for p in range(lo, hi + 1) if p not in reserved)
+        if outside:
+            bad.append("bytes %d..%d are required to be zero, %s of them are not reserved" % (lo, hi, outside))
+    verdict = False if bad else (None if unknown else True)
+    ctx.ob(rule, "reserved-bytes/IndexPacketHeader::read", verdict, "zero tests on header bytes: %d, all within the reserved bytes {0, 7..14} of the 15-byte buffer%s%s" % (
+        n, "; VIOLATED: " + "; ".join(bad) if bad else "", "; not recognised: %s" % unknown if unknown else ""), where=f.file_line(0))
